@@ -605,7 +605,7 @@ def r4b_which_text_is_compared(ctx):
             if r[0] == 'repo' and r[1][0].qualname == 'xdoctest.checker.check_output' and c.args:
                 a0 = c.args[0]
                 vals = [a0]
-                if isinstance(a0, ast.Name):
+                if isinstance(a0, ast.Name) and a0.id != 'got_stdout':
                     vals = [d.value if isinstance(d.value, ast.AST) else None for d in rd.at(n, a0.id)]
                 kinds = set()
                 for v in vals:
@@ -621,7 +621,12 @@ def r4b_which_text_is_compared(ctx):
                 noeval = next((fa.polarity for fa in facts if isinstance(fa.expr, ast.Compare) and 'NOT_EVALED' in fa.text and isinstance(fa.expr.ops[0], ast.Is)), None)
                 printed = next((fa.polarity for fa in facts if is_name(fa.expr, 'got_stdout')), None)
                 failed_before = any(fa.polarity is False and isinstance(fa.expr, ast.Name) and fa.expr.id not in ('got_stdout',) for fa in facts)
-                stored = isinstance(n.ast, ast.Assign) and isinstance(n.ast.targets[0], ast.Name)
+                # `flag = check_output(stdout ...) or check_output(repr ...)`: the second operand runs when the first was false
+                for fa in graph.short_circuit_facts(n.ast, c):
+                    if fa.polarity is False and isinstance(fa.expr, ast.Call) and ctx.res.resolve_call(f, fa.expr)[0] == 'repo' and \
+                            ctx.res.resolve_call(f, fa.expr)[1][0].qualname == 'xdoctest.checker.check_output':
+                        failed_before = True
+                stored = isinstance(n.ast, (ast.Assign, ast.Return)) or n.kind == 'test'
                 sites.append((n, c, kinds, noeval, printed, failed_before, stored))
     rep.floor('C02.R4b', 'comparisons in check_got_vs_want', len(sites), 3)
     have = set()
@@ -636,6 +641,7 @@ def r4b_which_text_is_compared(ctx):
             want_kind, branch = {'stdout'}, 'evaluated and printed'
         else:
             raise AnalysisError('C02.R4b: the branch of %s was not recognised' % ctx.src(c))
+        need('?' not in kinds, 'C02.R4b: where the text compared by %s comes from was not recognised' % ctx.src(c))
         ok = kinds == want_kind and stored
         have.add(branch)
         rep.ob('C02.R4b', ctx.loc(f, c), '%s | %s' % (ctx.src(c), branch), ok,
